@@ -557,15 +557,16 @@ def third_text() -> str:
         <xtce:IntegerDataEncoding sizeInBits="8" encoding="unsigned"/>
       </xtce:IntegerParameterType>'''
 
-    def child(name, comparisons, entries, abstract=None):
-        cmp_ = "\n".join(f'              <xtce:Comparison parameterRef="{p}" comparisonOperator="{op}" value="{v}"/>' for p, op, v in comparisons)
+    def child(name, comparisons, entries, abstract=None, base="CCSDSPacket"):
+        cmp_ = "\n".join(f'              <xtce:Comparison parameterRef="{c[0]}" comparisonOperator="{c[1]}" value="{c[2]}"'
+                         + (f' useCalibratedValue="{c[3]}"' if len(c) > 3 else "") + "/>" for c in comparisons)
         ent = "\n".join(f'          <xtce:ParameterRefEntry parameterRef="{e}"/>' for e in entries)
         abs_ = f' abstract="{abstract}"' if abstract else ""
         return f'''      <xtce:SequenceContainer name="{name}"{abs_}>
         <xtce:EntryList>
 {ent}
         </xtce:EntryList>
-        <xtce:BaseContainer containerRef="CCSDSPacket">
+        <xtce:BaseContainer containerRef="{base}">
           <xtce:RestrictionCriteria>
             <xtce:ComparisonList>
 {cmp_}
@@ -601,6 +602,12 @@ def third_text() -> str:
           <xtce:Unit>counts</xtce:Unit>
         </xtce:UnitSet>
         <xtce:IntegerDataEncoding sizeInBits="16" encoding="twosComplement"/>
+      </xtce:IntegerParameterType>
+      <xtce:IntegerParameterType name="LE16_T" signed="false">
+        <xtce:IntegerDataEncoding sizeInBits="16" encoding="unsigned" byteOrder="leastSignificantByteFirst"/>
+      </xtce:IntegerParameterType>
+      <xtce:IntegerParameterType name="BE16_T" signed="false">
+        <xtce:IntegerDataEncoding sizeInBits="16" encoding="unsigned"/>
       </xtce:IntegerParameterType>
       <xtce:IntegerParameterType name="US_T" signed="true">
         <xtce:IntegerDataEncoding sizeInBits="8" encoding="unsigned"/>
@@ -647,6 +654,15 @@ def third_text() -> str:
           </xtce:ContextCalibratorList>
         </xtce:IntegerDataEncoding>
       </xtce:IntegerParameterType>
+      <xtce:IntegerParameterType name="LV_T" signed="false">
+        <xtce:IntegerDataEncoding sizeInBits="8" encoding="unsigned">
+          <xtce:DefaultCalibrator>
+            <xtce:PolynomialCalibrator>
+              <xtce:Term exponent="1" coefficient="2"/>
+            </xtce:PolynomialCalibrator>
+          </xtce:DefaultCalibrator>
+        </xtce:IntegerDataEncoding>
+      </xtce:IntegerParameterType>
       <xtce:FloatParameterType name="SP_T">
         <xtce:IntegerDataEncoding sizeInBits="8" encoding="unsigned">
           <xtce:DefaultCalibrator>
@@ -682,8 +698,11 @@ def third_text() -> str:
       <xtce:Parameter name="T_REL" parameterTypeRef="T_REL_T"/>
       <xtce:Parameter name="SU" parameterTypeRef="SU_T"/>
       <xtce:Parameter name="US" parameterTypeRef="US_T"/>
+      <xtce:Parameter name="BE16" parameterTypeRef="BE16_T"/>
+      <xtce:Parameter name="LE16" parameterTypeRef="LE16_T"/>
       <xtce:Parameter name="CC" parameterTypeRef="CC_T"/>
       <xtce:Parameter name="SP" parameterTypeRef="SP_T"/>
+      <xtce:Parameter name="LV" parameterTypeRef="LV_T"/>
       <xtce:Parameter name="STR" parameterTypeRef="STR_T"/>
     </xtce:ParameterSet>
     <xtce:ContainerSet>
@@ -694,11 +713,14 @@ def third_text() -> str:
           <xtce:ParameterRefEntry parameterRef="MODE"/>
         </xtce:EntryList>
       </xtce:SequenceContainer>
-{child("RANGE_A", [("PKT_APID", "&gt;=", "100"), ("PKT_APID", "&lt;", "200")], ["T_ABS", "T_REL", "SU", "US"])}
+{child("RANGE_A", [("PKT_APID", "&gt;=", "100"), ("PKT_APID", "&lt;", "200")], ["T_ABS", "T_REL", "SU", "US", "BE16", "LE16"])}
 {child("RANGE_B", [("PKT_APID", "geq", "200"), ("PKT_APID", "lt", "300")], ["CC", "SP", "STR"])}
 {child("NEVER", [("ID", "==", "1"), ("PKT_APID", "&gt;=", "300"), ("ID", "==", "2")], ["X8"])}
 {child("TEN", [("PKT_APID", "&gt;=", "0300"), ("ID", "==", "010")], ["Y8"])}
 {child("FAMILY", [("PKT_APID", "==", "77")], ["X8"], abstract="true")}
+{child("P400", [("PKT_APID", "==", "400"), ("ID", "!=", "10")], ["LV"], abstract="true")}
+{child("LV_CAL", [("LV", "==", "4")], ["X8"], base="P400")}
+{child("LV_RAW", [("LV", "==", "4", "false")], ["Y8"], base="P400")}
     </xtce:ContainerSet>
   </xtce:TelemetryMetaData>
 </xtce:SpaceSystem>
